@@ -1423,6 +1423,9 @@ def _slice_swap(it, a, c):
     return UNIT()
 
 
+DEF_MODELS['core::slice::<impl [T]>::swap'] = _slice_swap      # any element type (e.g. [&[u8]]): looked up by the generic definition
+
+
 @model('std::string::String::into_bytes', 'alloc::string::String::into_bytes')
 def _string_into_bytes(it, a, c):
     x = deref(a[0])
